@@ -47,8 +47,8 @@ import (
 	"math"
 	"math/rand"
 	"os"
-	"os/exec"
 	"path/filepath"
+	"reflect"
 	"runtime"
 	"sort"
 	"strings"
@@ -456,18 +456,21 @@ func genDRows(seed int64, groups int) []dRow {
 // ---------------------------------------------------------------------------
 
 type spec struct {
-	Family  string   `json:"family"`             // gen | typed | rle | sorting | encrypted | be128 | opt | ints | logical
-	Combo   string   `json:"combo,omitempty"`    // ints: the (Go integer kind / width tag) combination
-	API     string   `json:"api,omitempty"`      // generic | writer
-	Case    gen.Case `json:"case"`               // gen family: the generated case; others: Seed and NRows
-	DictMax int64    `json:"dict_max,omitempty"` // DictionaryMaxBytes override (forces the fallback to PLAIN)
-	KV      int      `json:"kv,omitempty"`       // number of key/value pairs in the configuration (a Go map)
-	Extra   int      `json:"extra,omitempty"`    // rows available to previous lives
-	FinalKV int      `json:"final_kv,omitempty"` // SetKeyValueMetadata calls of the file under test: 1 overrides a configured key, 2 adds a key, 3 both
-	WBuf    int      `json:"wbuf,omitempty"`     // WriteBufferSize: 0 = the default (32 KiB), -1 = unbuffered, n = n bytes
-	Dedupe  bool     `json:"dedupe,omitempty"`   // sorting: DropDuplicatedRows
-	Keys    int      `json:"keys,omitempty"`     // sorting: number of distinct sorting keys over ALL rows, previous lives included (0 = every row its own key, previous lives apart)
-	Desc    bool     `json:"desc,omitempty"`     // sorting: descending
+	Family  string   `json:"family"`               // gen | typed | rle | sorting | encrypted | be128 | opt | ints | logical
+	Combo   string   `json:"combo,omitempty"`      // ints: the (Go integer kind / width tag) combination
+	API     string   `json:"api,omitempty"`        // generic | writer
+	Case    gen.Case `json:"case"`                 // gen family: the generated case; others: Seed and NRows
+	DictMax int64    `json:"dict_max,omitempty"`   // DictionaryMaxBytes override (forces the fallback to PLAIN)
+	KV      int      `json:"kv,omitempty"`         // number of key/value pairs in the configuration (a Go map)
+	Extra   int      `json:"extra,omitempty"`      // rows available to previous lives
+	FinalKV int      `json:"final_kv,omitempty"`   // SetKeyValueMetadata calls of the file under test: 1 overrides a configured key, 2 adds a key, 3 both
+	WBuf    int      `json:"wbuf,omitempty"`       // WriteBufferSize: 0 = the default (32 KiB), -1 = unbuffered, n = n bytes
+	Dedupe  bool     `json:"dedupe,omitempty"`     // sorting: DropDuplicatedRows
+	Keys    int      `json:"keys,omitempty"`       // sorting: number of distinct sorting keys over ALL rows, previous lives included (0 = every row its own key, previous lives apart)
+	Desc    bool     `json:"desc,omitempty"`       // sorting: descending
+	Len     int      `json:"len,omitempty"`        // bloomlen: the length in bytes of every byte array value of the file
+	Tags    int      `json:"tags,omitempty"`       // typed families: bit mask of the parquet.StructTag replacements among the writer options (tagSets)
+	NullFin bool     `json:"null_final,omitempty"` // typed families: every optional column of the file under test holds only nulls (the previous lives hold values)
 }
 
 func (s spec) key() string { b, _ := json.Marshal(s); return string(b) }
@@ -514,6 +517,7 @@ type factory struct {
 	prepare  func()                         // run before every production (deterministic nonce source)
 	combo    *intCombo                      // ints family: the combination
 	intCols  func() [][]uint64              // ints family: the bit patterns of the Go values of every leaf column of the file under test
+	blooms   []bloomCol                     // the columns with a configured bloom filter whose encoding is known (bloom location model)
 }
 
 // ---- gen family: parquet.Row pool, GenericWriter[any] or Writer ----
@@ -754,16 +758,21 @@ func typedFactory[T any](sp spec, rows []T, n int, sortCol string, maxRows int64
 	if maxRows > 0 {
 		f.maxRows = maxRows
 	}
-	f.ncols = len(parquet.SchemaOf(new(T)).Columns())
+	// (the schema is derived with the spec's own schema options: a production in a
+	// fresh process must not touch the plain schema of the Go type first)
+	f.ncols = len(parquet.SchemaOf(new(T), tagOptions(sp)...).Columns())
 	opts := func() []parquet.WriterOption {
 		o := baseOpts()
+		for _, t := range tagOptions(sp) {
+			o = append(o, t.(parquet.WriterOption))
+		}
 		if sp.DictMax > 0 {
 			o = append(o, parquet.DictionaryMaxBytes(sp.DictMax))
 		}
 		if sp.Family != "sorting" && sp.Case.Seed%2 == 1 {
 			// declared (not enforced) sorting columns of the writer configuration:
 			// the last leaf, descending, nulls first (so that a zeroed entry differs)
-			cols := parquet.SchemaOf(new(T)).Columns()
+			cols := parquet.SchemaOf(new(T), tagOptions(sp)...).Columns()
 			o = append(o, parquet.SortingWriterConfig(parquet.SortingColumns(parquet.NullsFirst(parquet.Descending(cols[len(cols)-1]...)))))
 		}
 		return append(append(o, wbufOption(sp)...), kvOptions(sp.KV)...)
@@ -781,7 +790,7 @@ func typedFactory[T any](sp spec, rows []T, n int, sortCol string, maxRows int64
 		}
 	case sp.API == "writer":
 		f.mk = func(sink io.Writer) pooled {
-			return &anyPool[T]{w: parquet.NewWriter(sink, append(opts(), parquet.SchemaOf(new(T)))...), rows: rows}
+			return &anyPool[T]{w: parquet.NewWriter(sink, append(opts(), parquet.SchemaOf(new(T), tagOptions(sp)...))...), rows: rows}
 		}
 	default:
 		f.mk = func(sink io.Writer) pooled {
@@ -797,7 +806,33 @@ func typedFactory[T any](sp spec, rows []T, n int, sortCol string, maxRows int64
 		}
 		return &typedBufPool[T]{b: parquet.NewGenericBuffer[T](), rows: rows}
 	}
+	if sp.Tags != 0 {
+		f.mkBuffer = nil // the buffers are built from the plain Go type
+	}
 	return f
+}
+
+// tagSets: the parquet.StructTag replacements of each typed family, by Go field
+// name. Bit k of spec.Tags selects entry k. No replacement renames a column or
+// changes the number of leaves (bloom filters and sorting columns name them):
+// they change the encoding, the compression and the optionality, as a writer
+// option instead of a change of the Go type.
+var tagSets = map[string][]struct{ Field, Tag string }{
+	"typed": {{"S", `parquet:"s,optional,zstd"`}, {"ID", `parquet:"id"`}, {"D", `parquet:"d,optional,dict"`}, {"Q", `parquet:"q,optional,gzip"`}, {"F64", `parquet:"f64"`}, {"I32", `parquet:"i32,delta"`}},
+	"rle":   {{"D", `parquet:"d,delta"`}, {"O", `parquet:"o"`}, {"B", `parquet:"b,optional,snappy"`}},
+	"be128": {{"U", `parquet:"u"`}, {"F", `parquet:"f,optional,dict"`}, {"O", `parquet:"o,snappy"`}},
+	"opt":   {{"S", `parquet:"s,optional,dict,zstd"`}, {"SD", `parquet:"sd"`}, {"I64", `parquet:"i64,delta"`}, {"Y", `parquet:"y,optional,dict"`}, {"I32", `parquet:"i32,optional,dict,snappy"`}},
+}
+
+func tagOptions(sp spec) []parquet.SchemaOption {
+	set := tagSets[sp.Family]
+	var out []parquet.SchemaOption
+	for k, t := range set {
+		if sp.Tags&(1<<uint(k)) != 0 {
+			out = append(out, parquet.StructTag(reflect.StructTag(t.Tag), t.Field))
+		}
+	}
+	return out
 }
 
 // buildPanics counts the specs that could not be built, by message (reported as a note).
@@ -857,6 +892,17 @@ func build(sp spec) (f *factory, ok bool) {
 			rows[i].S = "zzzz-" + rows[i].S
 			rows[i].Q = -1e9
 		}
+		if sp.NullFin {
+			for i := 0; i < n && i < len(rows); i++ {
+				r := &rows[i]
+				r.F64, r.F32, r.I32, r.S, r.L, r.P, r.G = 0, 0, 0, "", nil, nil, tInner{}
+			}
+			for i := n; i < len(rows); i++ {
+				if rows[i].S == "" {
+					rows[i].S = "zzzz-"
+				}
+			}
+		}
 		if sp.Keys > 0 {
 			// a chosen number of distinct sorting keys shared by the file and the previous lives
 			krng := rand.New(rand.NewSource(sp.Case.Seed ^ 0x4b))
@@ -869,18 +915,22 @@ func build(sp spec) (f *factory, ok bool) {
 		if mrng.Intn(3) == 0 {
 			maxRows = int64(10 + mrng.Intn(50))
 		}
-		return typedFactory(sp, rows, n, "id", maxRows, func() []parquet.WriterOption {
-			rng := rand.New(rand.NewSource(sp.Case.Seed ^ 0x99))
-			o := []parquet.WriterOption{parquet.PageBufferSize([]int{128, 1024, 1 << 16}[rng.Intn(3)]), parquet.DataPageVersion(1 + rng.Intn(2)),
-				parquet.Compression(gen.Codecs[allCodecs[rng.Intn(len(allCodecs))]])}
-			if rng.Intn(2) == 0 {
+		orng := rand.New(rand.NewSource(sp.Case.Seed ^ 0x99))
+		pageBuf, pageVer, codec, bloom := []int{128, 1024, 1 << 16}[orng.Intn(3)], 1+orng.Intn(2), allCodecs[orng.Intn(len(allCodecs))], orng.Intn(2) == 0
+		f := typedFactory(sp, rows, n, "id", maxRows, func() []parquet.WriterOption {
+			o := []parquet.WriterOption{parquet.PageBufferSize(pageBuf), parquet.DataPageVersion(pageVer), parquet.Compression(gen.Codecs[codec])}
+			if bloom {
 				o = append(o, parquet.BloomFilters(parquet.SplitBlockFilter(10, "s"), parquet.SplitBlockFilter(10, "d")))
 			}
 			if maxRows > 0 {
 				o = append(o, parquet.MaxRowsPerRowGroup(maxRows))
 			}
 			return o
-		}), true
+		})
+		if bloom && sp.Family == "typed" && sp.Tags == 0 {
+			f.blooms = []bloomCol{{"s", true}, {"d", true}}
+		}
+		return f, true
 	case "rle":
 		rows := genDRows(sp.Case.Seed, sp.Case.NRows)
 		n := len(rows)
@@ -889,10 +939,22 @@ func build(sp spec) (f *factory, ok bool) {
 			extra[i].D += 1000
 		}
 		rows = append(rows, extra...)
+		if sp.NullFin {
+			for i := 0; i < n; i++ {
+				rows[i].O = 0
+			}
+		}
 		f := typedFactory(sp, rows, n, "d", 0, func() []parquet.WriterOption {
-			return []parquet.WriterOption{parquet.DataPageVersion(1 + int(sp.Case.Seed&1))}
+			o := []parquet.WriterOption{parquet.DataPageVersion(1 + int(sp.Case.Seed&1))}
+			if sp.NullFin {
+				o = append(o, parquet.BloomFilters(parquet.SplitBlockFilter(10, "o"), parquet.SplitBlockFilter(10, "d")))
+			}
+			return o
 		})
 		f.hist = []int{n}
+		if sp.NullFin && sp.Tags == 0 {
+			f.blooms = []bloomCol{{"o", true}, {"d", true}}
+		}
 		return f, true
 	case "be128":
 		n := sp.Case.NRows
@@ -903,9 +965,22 @@ func build(sp spec) (f *factory, ok bool) {
 	case "opt":
 		n := sp.Case.NRows
 		rows := genORows(sp.Case.Seed, n+sp.Extra)
-		return typedFactory(sp, rows, n, "id", 0, func() []parquet.WriterOption {
-			return []parquet.WriterOption{parquet.DataPageVersion(1 + int(sp.Case.Seed&1)), parquet.PageBufferSize([]int{96, 1 << 12, 1 << 16}[uint64(sp.Case.Seed)%3])}
-		}), true
+		if sp.NullFin {
+			for i := 0; i < n && i < len(rows); i++ {
+				rows[i] = oRow{ID: rows[i].ID}
+			}
+		}
+		f := typedFactory(sp, rows, n, "id", 0, func() []parquet.WriterOption {
+			o := []parquet.WriterOption{parquet.DataPageVersion(1 + int(sp.Case.Seed&1)), parquet.PageBufferSize([]int{96, 1 << 12, 1 << 16}[uint64(sp.Case.Seed)%3])}
+			if sp.NullFin {
+				o = append(o, parquet.BloomFilters(parquet.SplitBlockFilter(10, "sd"), parquet.SplitBlockFilter(10, "s"), parquet.SplitBlockFilter(10, "i32"), parquet.SplitBlockFilter(10, "uu")))
+			}
+			return o
+		})
+		if sp.NullFin && sp.Tags == 0 {
+			f.blooms = []bloomCol{{"sd", true}, {"s", false}, {"i32", false}, {"uu", false}}
+		}
+		return f, true
 	case "ints":
 		cb := intComboOf(sp.Combo)
 		if cb == nil {
@@ -914,6 +989,8 @@ func build(sp spec) (f *factory, ok bool) {
 		return cb.mk(sp, cb), true
 	case "logical":
 		return logicalFactory(sp), true
+	case "bloomlen":
+		return bloomLenFactory(sp), true
 	case "encrypted":
 		n := sp.Case.NRows
 		rows := genTRows(sp.Case.Seed, n+sp.Extra)
@@ -939,7 +1016,7 @@ func build(sp spec) (f *factory, ok bool) {
 
 // life is one previous use of the writer.
 type life struct {
-	Kind   string `json:"kind"` // closed | flushes | abandon | sinkfail | bufferfail | rowgroup | kv | empty
+	Kind   string `json:"kind"` // closed | flushes | abandon | sinkfail | bufferfail | rowgroup | copyfile | kv | empty
 	Lo     int    `json:"lo"`   // rows [Lo, Hi) of the extra rows
 	Hi     int    `json:"hi"`
 	FailAt int    `json:"fail_at,omitempty"`
@@ -997,6 +1074,15 @@ func runLife(w pooled, f *factory, l life) (ops []string) {
 		default:
 			set(99, 1)
 			set(0, 99)
+		}
+		if w1(lo, hi) {
+			ops = append(ops, "c")
+			_ = w.Close()
+		}
+	case "copyfile":
+		cops, ok := copyFileLife(w, f, lo, hi, batch%2 == 0)
+		if ok {
+			return append(ops, cops...)
 		}
 		if w1(lo, hi) {
 			ops = append(ops, "c")
@@ -1234,6 +1320,7 @@ func (p *rowPool) WriteRowGroup(rg parquet.RowGroup) (int64, error) { return p.w
 func (p *typedPool[T]) WriteRowGroup(rg parquet.RowGroup) (int64, error) {
 	return p.w.WriteRowGroup(rg)
 }
+func (p *anyPool[T]) WriteRowGroup(rg parquet.RowGroup) (int64, error) { return p.w.WriteRowGroup(rg) }
 
 // ---------------------------------------------------------------------------
 // comparison, description of a difference
@@ -1297,7 +1384,7 @@ func describeDiff(a, b []byte) string {
 
 type scenario struct {
 	Spec  spec   `json:"spec"`
-	Mode  string `json:"mode"` // reset | buffer | goroutine | churn | gomaxprocs | poison | repeat
+	Mode  string `json:"mode"` // reset | buffer | goroutine | churn | gomaxprocs | poison | repeat | history | process
 	Lives []life `json:"lives,omitempty"`
 	Prev  int    `json:"prev,omitempty"` // buffer mode: number of previous fills
 	Sort  bool   `json:"sort,omitempty"`
@@ -1309,7 +1396,9 @@ type env struct {
 	refs map[string]outcome
 	vm   []string
 
-	geoChunks int // column chunks whose geospatial statistics were compared with the model
+	geoChunks   int // column chunks whose geospatial statistics were compared with the model
+	bloomChunks int // column chunks whose bloom filter location was compared with the model
+	bloomNone   int // ... of which have no filter although one is configured
 }
 
 func (e *env) ref(f *factory) outcome {
@@ -1414,6 +1503,28 @@ func (e *env) checkScenario(sc scenario) bool {
 		got = produceFresh(f)
 		parquet.VerifSetPoison(false)
 		class = "pool-poison-differs"
+	case "process":
+		// the other set of schema options on the same Go type first, then the spec,
+		// in this process; the spec alone in a process that has done nothing before
+		class = "process-history-differs"
+		if sb, ok := build(sibling(sc.Spec)); ok {
+			_ = produceFresh(sb)
+		}
+		got = produceFresh(f)
+		if got.err != "" {
+			break
+		}
+		rd, ok := freshProcessDigest(c, sc.Spec)
+		if !ok {
+			c.Res.Buckets["skipped/no-fresh-process"]++
+			return true
+		}
+		if gd := digest(got.bytes); rd.Err != "" || rd.Digest != gd {
+			c.Violation(class, fmt.Sprintf("digest %s (%d bytes, err %q: a process that did nothing before) <> %s (%d bytes: this process, after the same Go type was used with other schema options): %s",
+				rd.Digest[:16], rd.Len, rd.Err, gd[:16], len(got.bytes), firstPartDiff(rd.Parts, parts(got.bytes))), sc)
+			return false
+		}
+		ref = got
 	case "repeat":
 		class = "repeat-differs"
 		got = ref
@@ -1448,6 +1559,10 @@ func (e *env) checkScenario(sc scenario) bool {
 	// correspondence with the model: the stored values of the integer combinations
 	// (a sorted buffer holds the rows in another order)
 	if sc.Spec.Family == "ints" && !(sc.Mode == "buffer" && sc.Sort) && !e.checkIntsModel(f, got.bytes, sc) {
+		return false
+	}
+	// ... the bloom filter locations of the columns whose configuration is known
+	if !e.checkBloomModel(f, got.bytes, sc) {
 		return false
 	}
 	// ... and the geospatial statistics of every row group
@@ -1881,6 +1996,20 @@ func variantSpecs(c *core.Ctx) []spec {
 		}
 		out = append(out, sp)
 	}
+	// bloom-filtered byte array columns: every value length 0..100 (the hash kernels
+	// of the builds branch on the length), and the struct tag replacements
+	for l := 0; l <= 100; l++ {
+		sp := spec{Family: "bloomlen", Len: l, Case: gen.Case{Seed: 3000 + c.Seed*211 + int64(l), NRows: 12}}
+		if l%10 == 9 {
+			sp.API = "writer"
+		}
+		out = append(out, sp)
+	}
+	for i, fam := range []string{"typed", "rle", "be128", "opt"} {
+		for k := range tagSets[fam] {
+			out = append(out, spec{Family: fam, Tags: 1 << uint(k), Case: gen.Case{Seed: 3200 + int64(10*i+k), NRows: 40}})
+		}
+	}
 	out = append(out, spec{Family: "typed", API: "writer", Case: gen.Case{Seed: 2000, NRows: 120}})
 	out = append(out, spec{Family: "sorting", Case: gen.Case{Seed: 2001, NRows: 150}})
 	out = append(out, spec{Family: "sorting", Case: gen.Case{Seed: 2002, NRows: 150}, Dedupe: true, Keys: 40, Desc: true})
@@ -1922,51 +2051,7 @@ func readVariantFiles(dir, self string) []variantFile {
 // remoteDigest asks the harness binary of another variant for the digest of a
 // spec (used to shrink a difference between builds).
 func remoteDigest(c *core.Ctx, dir string, other variantFile, sp spec) (caseDigest, bool) {
-	bin := filepath.Join(dir, "harness_"+other.Variant)
-	if _, err := os.Stat(bin); err != nil {
-		return caseDigest{}, false
-	}
-	tmp, err := os.MkdirTemp(dir, "remote")
-	if err != nil {
-		return caseDigest{}, false
-	}
-	defer os.RemoveAll(tmp)
-	req, _ := json.Marshal(map[string]any{"replay": map[string]any{"digest_request": []spec{sp}}})
-	rf := filepath.Join(tmp, "req.json")
-	if os.WriteFile(rf, req, 0o644) != nil {
-		return caseDigest{}, false
-	}
-	cmd := exec.Command(bin, "-replay", rf, "-out", tmp, "-variant", other.Variant, "-tier", c.Tier, "-seed", fmt.Sprint(c.Seed), "-replays", tmp)
-	var envv []string
-	for _, e := range os.Environ() {
-		if !strings.HasPrefix(e, "GODEBUG=") {
-			envv = append(envv, e)
-		}
-	}
-	if other.GoDebug != "" {
-		envv = append(envv, "GODEBUG="+other.GoDebug)
-	}
-	cmd.Env = envv
-	done := make(chan error, 1)
-	go func() { done <- cmd.Run() }()
-	select {
-	case err := <-done:
-		if err != nil {
-			return caseDigest{}, false
-		}
-	case <-time.After(60 * time.Second):
-		_ = cmd.Process.Kill()
-		return caseDigest{}, false
-	}
-	b, err := os.ReadFile(filepath.Join(tmp, "digest_reply.json"))
-	if err != nil {
-		return caseDigest{}, false
-	}
-	var reply []caseDigest
-	if json.Unmarshal(b, &reply) != nil || len(reply) != 1 {
-		return caseDigest{}, false
-	}
-	return reply[0], true
+	return digestByProcess(c, filepath.Join(dir, "harness_"+other.Variant), other.Variant, other.GoDebug, sp)
 }
 
 func firstPartDiff(a, b []partDigest) string {
@@ -2078,10 +2163,10 @@ func livesFor(rng *rand.Rand, f *factory, refLen int, kinds []string) []life {
 	return ls
 }
 
-var allKinds = []string{"closed", "closed", "flushes", "abandon", "sinkfail", "rowgroup", "kv", "empty"}
+var allKinds = []string{"closed", "closed", "flushes", "abandon", "sinkfail", "rowgroup", "copyfile", "kv", "empty"}
 
 func runC17(c *core.Ctx) {
-	c.Res.Rule = "files are produced from (schema, rows, options, write/flush history) given by gen.Case (all codecs, encodings, page versions, nested schemas, dictionaries, bloom filters, statistics, key/value maps, write buffer sizes) and by typed structs: optional non-pointer fields holding -0.0/NaN/zero values, chosen dictionary index patterns, 16-byte values, and one optional field of EVERY Go kind that has a null index function (bool, all integer widths, floats, string, []byte, byte arrays, Int96, time.Time, struct, pointers, slices, map) holding the values at the boundary between null and non-null (zero; exactly one non-zero byte at each position; extremes; -0.0, NaN; nil / empty / empty-with-a-pointer / non-empty slices and strings; nil pointer / pointer to zero); each scenario compares sha256(reference: fresh writer) with sha256(writer reused through Reset after 1-3 previous lives of kinds closed/flushes/abandon/sinkfail/rowgroup/kv (new keys and overrides of CONFIGURED keys in four orders)/empty; SortingWriter: keeping or dropping duplicates, 1-40 distinct keys shared by the file and the previous lives, either direction, and the additional life bufferfail = the pool buffer of the sorted chunks fails after n bytes when written or when read back | buffer reused through Reset | other goroutine | after pool churn | poisoned pools | GOMAXPROCS 1 vs many | n-th repetition | second production after unrelated writes of the same goroutine: other writers of the same configuration running 1-3 lives, generated schemas, OTHER integer combinations in batches of 300 rows, the logical types); two further typed families, ints = all 90 combinations of a Go integer kind with no / an int(n) / a uint(n) tag (one struct type each: required, optional, pointer, list field; boundary and random values), every combination in every run through history, reset, and in rotation the reflection path and a reused buffer, the stored values compared with the model (Go value mod 2^physical width); logical = GEOMETRY/GEOGRAPHY (geom.T and raw WKB, both byte orders, XY/XYZ/XYM/XYZM, points, line strings, polygons, multi points, empty geometries, NaN, malformed WKB; the two halves of the file and the previous lives draw from independent profiles Z allowed / M allowed / dirty), VARIANT, INTERVAL, DECIMAL on INT32/INT64/FIXED, DATE, TIME, TIMESTAMP in every unit, JSON, ENUM, UUID strings, with the geospatial statistics of every column chunk compared with the accumulator model on the values stored in that row group; the file under test may itself override a configured key / add a key; every build variant writes the digests of one fixed case list which the later variants compare with. Non-trivial = the file under test has at least 2 rows; distinct by the JSON of the scenario."
+	c.Res.Rule = "files are produced from (schema, rows, options, write/flush history) given by gen.Case (all codecs, encodings, page versions, nested schemas, dictionaries, bloom filters, statistics, key/value maps, write buffer sizes) and by typed structs: optional non-pointer fields holding -0.0/NaN/zero values, chosen dictionary index patterns, 16-byte values, and one optional field of EVERY Go kind that has a null index function (bool, all integer widths, floats, string, []byte, byte arrays, Int96, time.Time, struct, pointers, slices, map) holding the values at the boundary between null and non-null (zero; exactly one non-zero byte at each position; extremes; -0.0, NaN; nil / empty / empty-with-a-pointer / non-empty slices and strings; nil pointer / pointer to zero); each scenario compares sha256(reference: fresh writer) with sha256(writer reused through Reset after 1-3 previous lives of kinds closed/flushes/abandon/sinkfail/rowgroup/kv (new keys and overrides of CONFIGURED keys in four orders)/empty; SortingWriter: keeping or dropping duplicates, 1-40 distinct keys shared by the file and the previous lives, either direction, and the additional life bufferfail = the pool buffer of the sorted chunks fails after n bytes when written or when read back | buffer reused through Reset | other goroutine | after pool churn | poisoned pools | GOMAXPROCS 1 vs many | n-th repetition | second production after unrelated writes of the same goroutine: other writers of the same configuration running 1-3 lives, generated schemas, OTHER integer combinations in batches of 300 rows, the logical types); two further typed families, ints = all 90 combinations of a Go integer kind with no / an int(n) / a uint(n) tag (one struct type each: required, optional, pointer, list field; boundary and random values), every combination in every run through history, reset, and in rotation the reflection path and a reused buffer, the stored values compared with the model (Go value mod 2^physical width); logical = GEOMETRY/GEOGRAPHY (geom.T and raw WKB, both byte orders, XY/XYZ/XYM/XYZM, points, line strings, polygons, multi points, empty geometries, NaN, malformed WKB; the two halves of the file and the previous lives draw from independent profiles Z allowed / M allowed / dirty), VARIANT, INTERVAL, DECIMAL on INT32/INT64/FIXED, DATE, TIME, TIMESTAMP in every unit, JSON, ENUM, UUID strings, with the geospatial statistics of every column chunk compared with the accumulator model on the values stored in that row group; previous lives of kind copyfile (the row groups of a FILE written with the same configuration arrive through WriteRowGroup and are copied verbatim, bloom filters and page indexes included, optionally followed by rows written normally) in every family and in a dedicated group where the optional columns of the file under test hold only nulls (null_final / null bias 10: no dictionary page and no filter of their own), the bloom filter location of every chunk of the columns whose encoding is known compared with the model Reset/BloomLoc.v; parquet.StructTag replacements among the writer options (each single replacement of four typed families and random sets: encoding, compression, optionality), with reused writers, and mode process = the file this process writes after the same Go type was used with the OTHER set of schema options (plain after tagged, tagged after plain) against the file of a process that has done nothing before (the same binary started for the one spec); the file under test may itself override a configured key / add a key; the fixed list of the build variants holds bloom-filtered byte array columns (plain, dictionary, fixed length) for every value length 0..100 and every struct tag replacement; every build variant writes the digests of one fixed case list which the later variants compare with. Non-trivial = the file under test has at least 2 rows; distinct by the JSON of the scenario."
 	e := &env{c: c, refs: map[string]outcome{}}
 	savedRand := crand.Reader
 	defer func() { crand.Reader = savedRand }()
@@ -2312,6 +2397,99 @@ func runC17(c *core.Ctx) {
 		}
 	}
 
+	// ---- verbatim copies in the previous lives, all-null columns in the file ----
+	// a row group copied from a file of the same configuration goes through the
+	// column writers without their building anything (pages, dictionary, bloom
+	// filter, page index are streamed from the source); the file under test then
+	// holds only nulls in its optional columns, so that it writes none of these
+	// itself: whatever the copy left in the column writers shows
+	nCopy := c.N(72, 700)
+	for i := 0; i < nCopy; i++ {
+		fam := []string{"typed", "gen", "opt", "typed", "gen", "rle", "bloomlen", "typed"}[i%8]
+		sp := spec{Family: fam, Case: gen.Case{Seed: c.Seed*49157 + int64(i), NRows: []int{1, 8, 60, 250}[c.Rng.Intn(4)]}, Extra: 16 + c.Rng.Intn(200)}
+		switch fam {
+		case "gen":
+			sp.Case.MaxDepth, sp.Case.MaxFields, sp.Case.Codecs = 1+c.Rng.Intn(3), 1+c.Rng.Intn(5), allCodecs
+			sp.Case.NullBias = []int{10, 10, 3}[c.Rng.Intn(3)] // 10: every optional value of the file is null (the previous lives draw with bias 5)
+		case "bloomlen":
+			sp.Len = c.Rng.Intn(40)
+		default:
+			sp.NullFin = c.Rng.Intn(4) != 0
+			if fam == "typed" && c.Rng.Intn(4) == 0 {
+				sp.API = "writer"
+			}
+		}
+		f, ok := build(sp)
+		if !ok {
+			continue
+		}
+		ref := e.ref(f)
+		if ref.err != "" {
+			c.Res.Buckets["skipped/reference-error"]++
+			continue
+		}
+		lives := livesFor(c.Rng, f, len(ref.bytes), []string{"copyfile", "copyfile", "closed", "flushes", "rowgroup", "abandon"})
+		lives[c.Rng.Intn(len(lives))].Kind = "copyfile"
+		before := copiedChunks
+		sc := scenario{Spec: sp, Mode: "reset", Lives: lives}
+		e.run(sc, "reset/copyfile/"+fam)
+		if copiedChunks > before {
+			c.Res.Buckets["reset/copyfile/verbatim-copies"]++
+		}
+		if i < 2 {
+			c.Sample(sc)
+		}
+		if i%6 == 5 {
+			e.run(scenario{Spec: sp, Mode: "history", Lives: lives}, "history/copyfile")
+		}
+	}
+	c.Note("%d column chunks were copied verbatim by the copyfile lives", copiedChunks)
+
+	// ---- schema options: struct tag replacements, and the process-wide schema cache ----
+	// every typed family with each single replacement and random sets of them:
+	// reused writers; the same Go type used with and without replacements in this
+	// process, in both orders, against a process that has done nothing else
+	nTags := c.N(40, 400)
+	tagFams := []string{"typed", "rle", "be128", "opt"}
+	for i := 0; i < nTags; i++ {
+		fam := tagFams[i%4]
+		set := tagSets[fam]
+		sp := spec{Family: fam, Case: gen.Case{Seed: c.Seed*86243 + int64(i), NRows: []int{1, 8, 60, 250}[c.Rng.Intn(4)]}, Extra: 16 + c.Rng.Intn(100)}
+		if k := i / 4; k < len(set) {
+			sp.Tags = 1 << uint(k)
+		} else {
+			sp.Tags = 1 + c.Rng.Intn(1<<uint(len(set))-1)
+		}
+		if fam == "typed" && i%8 == 4 {
+			sp.API = "writer"
+		}
+		f, ok := build(sp)
+		if !ok {
+			continue
+		}
+		ref := e.ref(f)
+		if ref.err != "" {
+			c.Violation("tags-reference-error", fmt.Sprintf("%s with struct tag replacements %b: a fresh writer fails: %s", fam, sp.Tags, ref.err), scenario{Spec: sp, Mode: "repeat", Count: 1})
+			continue
+		}
+		if plain, ok := build(sibling(sp)); ok && i < 4*len(set) {
+			if pr := e.ref(plain); pr.err == "" && bytes.Equal(pr.bytes, ref.bytes) {
+				c.Violation("tags-without-effect", fmt.Sprintf("%s: the struct tag replacement %v leaves the file unchanged", fam, set[i/4]), scenario{Spec: sp, Mode: "repeat", Count: 1})
+			}
+		}
+		sc := scenario{Spec: sp, Mode: "reset", Lives: livesFor(c.Rng, f, len(ref.bytes), allKinds)}
+		e.run(sc, "reset/tags/"+fam)
+		if i < 2 {
+			c.Sample(sc)
+		}
+		switch i % 5 {
+		case 0, 1:
+			e.run(scenario{Spec: sp, Mode: "process"}, "process/tags-after-plain/"+fam)
+		case 2:
+			e.run(scenario{Spec: sibling(sp), Mode: "process"}, "process/plain-after-tags/"+fam)
+		}
+	}
+
 	// ---- (c), (d): goroutines, pools, GOMAXPROCS, repetition ----
 	nEnv := c.N(24, 200)
 	for i := 0; i < nEnv; i++ {
@@ -2350,6 +2528,13 @@ func runC17(c *core.Ctx) {
 				c.Mismatch("corr:C17.classification", q[0]+"."+q[1], q[2], got, nil)
 			}
 		}
+		// the bloom filter location after a verbatim copy: the reset that forgets it only with a
+		// filter of its own is told apart
+		for _, q := range [][3]string{{"current", "4:c2f", "0:0"}, {"pinned", "4:c2f", "4:2f"}, {"pinned", "4:b3", "0:0"}} {
+			if got := c.Ask("c17.bloomloc " + q[0] + " a " + q[1] + " 4:b0"); got != q[2] {
+				c.Mismatch("corr:C17.pinned-bloom-location", q[0]+" "+q[1], q[2], got, nil)
+			}
+		}
 		// the pinned resets must be told apart by the model (sanity of the oracle wiring)
 		cfg := "5:3:1:7:1/2/1/1.2;0/0/0/3"
 		for _, q := range [][4]string{{"current", "w0+c,k9=9,x14+4+2,c", "w0+7,c", "1"}, {"pinned-aliasing", "w0+c,c", "w0+7,c", "0"},
@@ -2361,6 +2546,7 @@ func runC17(c *core.Ctx) {
 	}
 
 	c.Note("geospatial statistics of %d column chunks compared with the model", e.geoChunks)
+	c.Note("bloom filter locations of %d column chunks compared with the model (%d configured chunks without filter)", e.bloomChunks, e.bloomNone)
 	for msg, n := range panickedLives {
 		c.Note("%d previous lives ended in a panic of the library (treated as failed lives): %s", n, msg)
 	}
